@@ -98,7 +98,74 @@ def _run_case(case):
     return bad
 
 
+def reuse_aggregates(seed):
+    """the same Aggregates objects analysed, updated IN PLACE (running statistics: count_, mean_, var_, cov_ are public
+    attributes), and analysed again: the result is the analysis of their current contents"""
+    import copy
+    import random
+    import tea_tasting as tt
+    rng = random.Random(seed)
+    rows = lambda n: G.rand_rows(rng, n, style="positive")
+    a, b = G.real_aggregates(rows(12), G.COLS, float), G.real_aggregates(rows(15), G.COLS, float)
+    metric = tt.RatioOfMeans("x", "y", "z", "w") if rng.random() < 0.5 else tt.Mean("x", "z")
+    fails = []
+    for step in range(3):
+        got = tuple(metric.analyze({0: a, 1: b}, 0, 1))
+        import tea_tasting.aggr as A
+        rebuilt = lambda g: A.Aggregates(count_=g.count_, mean_=dict(g.mean_), var_=dict(g.var_), cov_=dict(g.cov_))
+        fresh_metric = tt.RatioOfMeans("x", "y", "z", "w") if type(metric) is tt.RatioOfMeans else tt.Mean("x", "z")
+        fresh = tuple(fresh_metric.analyze({0: rebuilt(a), 1: rebuilt(b)}, 0, 1))     # new objects with the CURRENT contents
+        if not all(x == y or (x != x and y != y) for x, y in zip(got, fresh)):
+            fails.append(f"step {step}: analysis of updated Aggregates objects {got[:3]} != analysis of fresh copies {fresh[:3]}")
+        # day + 1: more observations arrive, the running statistics are updated in place
+        more = G.real_aggregates(rows(9), G.COLS, float)
+        upd = a + more
+        a.count_, a.mean_, a.var_, a.cov_ = upd.count_, dict(upd.mean_), dict(upd.var_), dict(upd.cov_)
+        b.mean_["z"] = b.mean_["z"] * 1.5
+    return fails
+
+
+def covariate_name_case(seed):
+    """the name of the covariate column is immaterial: '' / ' ' / '0' give the result of an ordinary name"""
+    import random
+    import numpy as np
+    import polars as pl
+    import tea_tasting as tt
+    rng = random.Random(seed)
+    r = np.random.default_rng(seed)
+    n = 60
+    x = r.normal(5, 2, n)
+    base = {"variant": [i % 2 for i in range(n)], "y": list(x * 0.8 + r.normal(0, 1, n) + 3), "d": list(r.uniform(1, 3, n)),
+            "d2": list(r.uniform(2, 4, n))}
+    fails = []
+    ref = tuple(tt.Mean("y", "cov").analyze(pl.DataFrame({**base, "cov": list(x)}), 0, 1, "variant"))
+    refr = tuple(tt.RatioOfMeans("y", "d", "cov", "d2").analyze(pl.DataFrame({**base, "cov": list(x)}), 0, 1, "variant"))
+    for name in ("", " ", "0"):
+        df = pl.DataFrame({**base, name: list(x)})
+        got = tuple(tt.Mean("y", name).analyze(df, 0, 1, "variant"))
+        gotr = tuple(tt.RatioOfMeans("y", "d", name, "d2").analyze(df, 0, 1, "variant"))
+        if not all(abs(a - b) <= 1e-12 * max(1.0, abs(b)) for a, b in zip(got, ref)):
+            fails.append(f"Mean('y', {name!r}) {got[:3]} != the same covariate under an ordinary name {ref[:3]}")
+        if not all(abs(a - b) <= 1e-12 * max(1.0, abs(b)) for a, b in zip(gotr, refr)):
+            fails.append(f"RatioOfMeans with the covariate named {name!r} differs from the same covariate under an ordinary name")
+    return fails
+
+
 def oracle(ctx, deep=False):
+    for _ in range(ctx.n(2, 20)):
+        seed = ctx.rng.randint(0, 10**6)
+        ctx.evaluations += 1
+        ctx.count("oracle:covariate-names")
+        for f in covariate_name_case(seed)[:1]:
+            ctx.violations.append({"what": "CUPED: the covariate's column name changes the result", "detail": f,
+                                   "input": {"covariate_name": True, "seed": seed}})
+    for _ in range(ctx.n(4, 60)):
+        seed = ctx.rng.randint(0, 10**6)
+        ctx.evaluations += 1
+        ctx.count("oracle:reused-aggregates")
+        for f in reuse_aggregates(seed)[:1]:
+            ctx.violations.append({"what": "CUPED: result depends on an earlier analysis of the same Aggregates objects", "detail": f,
+                                   "input": {"reuse_aggregates": True, "seed": seed}})
     n = ctx.n(100, 3000) * (3 if deep else 1)
     for i in range(n):
         cfg = meanx.rand_cfg(ctx.rng, covariates=ctx.rng.choice([1, 2]))
@@ -118,6 +185,12 @@ def oracle(ctx, deep=False):
 
 
 def replay(ctx, rp):
+    if rp["input"].get("covariate_name"):
+        fails = covariate_name_case(rp["input"]["seed"])
+        return {"fails": bool(fails), "failures": fails}
+    if rp["input"].get("reuse_aggregates"):
+        fails = reuse_aggregates(rp["input"]["seed"])
+        return {"fails": bool(fails), "failures": fails}
     bad = _run_case(rp["input"])
     return {"fails": bool(bad), "failures": [str(b) for b in bad]}
 
